@@ -53,14 +53,16 @@ ASSUMPTIONS = ['reference evaluator lv/ref.py is the oracle (Evaluator.order_lim
 
 # Known finding D5 (`@Limit(P, 0)` is ignored: LimitClause tests `if limit:`): the generator
 # replaces K = 0 by a K in 1..n-1 and counts the exclusion; VERIF_C18_NO_EXCLUDE=1 re-derives it.
-EXCLUDE_D5 = not os.environ.get('VERIF_C18_NO_EXCLUDE')
+# D5 was repaired in /repo (fix: 6c90c71): nothing excluded unless VERIF_C18_EXCLUDE_D5=1.
+EXCLUDE_D5 = bool(os.environ.get('VERIF_C18_EXCLUDE_D5'))
 D5_QUIRK = 'D5_limit_zero_ignored'
 # Finding D12 (type-checking engines only): CheckOrderByClause accepts the separate tokens
 # "asc"/"desc" (lowercase) while OrderByClause understands only the separate token "DESC"
 # (uppercase): `@OrderBy(P, "col0", "DESC")`, the spelling of the repository's own
 # examples, is refused with "ordered by columns DESC which it lacks" as soon as type
 # checking is on.  With the flag set, type-checked programs spell it "col0 DESC".
-EXCLUDE_D12 = not os.environ.get('VERIF_C18_NO_EXCLUDE_D12')
+# D12 was repaired in /repo (fix: 7aa8b1c): nothing excluded unless VERIF_C18_EXCLUDE_D12=1.
+EXCLUDE_D12 = bool(os.environ.get('VERIF_C18_EXCLUDE_D12'))
 D12_QUIRK = 'D12_separate_DESC_token_refused_by_type_check'
 TYPECHECK_PCT = 25
 ENGINE_TC = '@Engine("sqlite", type_checking: true);'
